@@ -68,6 +68,13 @@ def run(rep, tier, seed):
         if tier == "quick" and conf[0] == "fat32-min" and i > 10:
             conf = small512[0]
         scripts.append(sessions.dir_heavy_session(rng, conf, nfiles=rng.range(8, 16)))
+    # root entry counts that do not fill whole sectors (the specification rounds the root region UP to whole sectors; the data area
+    # starts behind it): library and independent decoder must place every cluster alike
+    for k, conf in enumerate([("fat12-root100", 2000 * 512, "format 512 2000 512 12 100 2 - - -"), ("fat16-root17", 5000 * 512, "format 512 5000 512 16 17 2 - - -"),
+                              ("fat12-s4k-root224", 300 * 4096, "format 4096 300 4096 12 224 1 - - -"), ("fat12-s1k-root33", 900 * 1024, "format 1024 900 1024 12 33 2 - - -")]):
+        if tier != "quick" or k < 2:
+            for j in range(1 if tier == "quick" else 5):
+                scripts.append(remount_session(rng, conf, 24, 2))
     # directories without room (full fixed root / chain directory on a full volume): failed creates leave orphan long-name slots
     # behind, later entries land directly behind them - the library's listing after remount and the independent decode must agree
     for i in range(4 if tier == "quick" else 40):
